@@ -36,8 +36,8 @@ ASSUMES = ["index names are non-empty without '/', secondary keys and query keys
            "non-empty byte strings (the server validates none of this; failures outside are documented by _refuted lemmas)",
            "request keys are user keys or session keys and delete-ranges contain no index key (every range outside '__oxia/' and the shadow range of "
            "session.delete() qualify: c15_user_range_admissible, c15_shadow_range_admissible)",
-           "a sequence put generates a key that holds nothing (C16's freshness; where it fails the mirror fails too: known finding "
-           "index:mirror-broken:sequence-put-overwrote-live-record)"]
+           "(discharged, not assumed: a sequence put generates a key that holds nothing - C16's generate_key_fresh on the repaired db_sequences.go, "
+           "c15_admissible_histories_suffice)"]
 RULE = ("one case = 12-36 write requests against a fresh real DB on 1-4 indexes with neighbouring names (a, a-, a0, b): puts declaring 0-4 (name, skey) pairs "
         "(repeated secondary keys, duplicates, '/'-rich and escape-sensitive primary keys), overwrites, conditional puts, same-key batches, deletes, "
         "delete-ranges, bulk ranges of 60/100/101/130 indexed records, sessions with ephemeral indexed records and their closing request, sequence puts "
@@ -45,7 +45,7 @@ RULE = ("one case = 12-36 write requests against a fresh real DB on 1-4 indexes 
         "(Get x5 / List / RangeScan) with keys at and beyond both edges of the index, on empty and unused indexes too; every response compared with the "
         "model and with the Go reference, the mirror checked on the full dump after every write; distinct by generator sub-seed")
 LEGS = [
-    {"name": "db15", "harness": "db", "model": "db", "n_quick": 700, "n_thorough": 40000, "args": ["-mode", "c15"],
+    {"name": "db15", "harness": "db", "model": "db", "n_quick": 1000, "n_thorough": 40000, "args": ["-mode", "c15"],
      "corpus": "corpus/db15", "timeout": 900, "timeout_thorough": 3000},
 ]
 REGISTERED = True
